@@ -1201,6 +1201,28 @@ def rule_iteration_edges_freed(chk, prog):
         (r.bad if bad else r.ok)(q.split("::")[-1], fn.loc(v), bad or "")
 
 
+def rule_infos_freed_before_clear(chk, prog):
+    r = chk.rule("INFOS-FREED-BEFORE-CLEAR", "GradientProjection::destroyVPSC (end of every solve of ConstrainedMajorizationLayout) clear()s the vector of "
+                 "UnsatisfiableConstraintInfo pointers and refills it with `new` objects; the entries it drops were allocated by the previous "
+                 "destroyVPSC and nobody else has their addresses afterwards, so the clear() has to be preceded by a loop deleting them "
+                 "(ConstrainedFDLayout accumulates instead and leaves all of them to the caller)", floor=1)
+    fn = prog.fn("cola::GradientProjection::destroyVPSC")
+    g = CFG(fn)
+    clr = [c for c in calls(fn) if (c.get("cname") or "").split("::")[-1] == "clear" and call_object(c) is not None and "unsatisfiableConstraints" in norm(call_object(c))]
+    if not clr:
+        raise AnalysisBroken("destroyVPSC no longer clears the unsatisfiable-constraint infos: rule out of date")
+    for c in clr:
+        r.count()
+        must = []
+        for n in fn.nodes():
+            if n.get("k") == "CXXDeleteExpr" and n.get("ch") and "UnsatisfiableConstraintInfo" in str((strip(n["ch"][0]) or {}).get("t", "")):
+                lp = [a for a in fn.ancestors(n) if a.get("k") in ("ForStmt", "CXXForRangeStmt", "WhileStmt")]
+                must.append(strip(lp[0]["cond"])["id"] if lp and lp[0].get("cond") is not None else n["id"])
+        ok = bool(must) and g.must_precede(must, c["id"]) is None
+        (r.ok if ok else r.bad)("unsatisfiableConstraints->clear() in destroyVPSC", fn.loc(c), "" if ok else
+                                "the infos of the previous solve are dropped without delete")
+
+
 def rule_vertex_unlisted(chk, prog):
     r = chk.rule("VERTEX-UNLISTED-BEFORE-DELETE", "every `delete` of an Avoid::VertInf is preceded, on every path, by VertInfList::removeVertex of the same "
                  "vertex (the router's vertex list is an intrusive list threaded through the vertices: a freed vertex that is still linked is "
@@ -1461,6 +1483,7 @@ def run(chk):
     chk.guard(rule_solver_objects_read_before_freed, chk, prog)
     chk.guard(rule_iterator_survives_growth, chk, prog)
     chk.guard(rule_prev_of_end, chk, prog)
+    chk.guard(rule_infos_freed_before_clear, chk, prog)
     chk.guard(rule_iteration_edges_freed, chk, prog)
     chk.guard(rule_callers_topology_kept, chk, prog)
     chk.guard(rule_generated_constraints_freed, chk, prog)
